@@ -122,6 +122,12 @@ func (x *Exec) ExecPaths(fr *frame, st *State, k func(st *State, val Value)) {
 				continue
 			case *ssa.If:
 				cond := x.operand(st, ins.Cond).L[0]
+				// a condition already decided on this path (same term) is not forked again
+				if pcHas(st.PC, cond) {
+					cond = x.C.True()
+				} else if pcHas(st.PC, x.C.Not(cond)) {
+					cond = x.C.False()
+				}
 				if traceForks && !cond.IsTrue() && !cond.IsFalse() {
 					fmt.Fprintf(os.Stderr, "FORK %s %s: %s\n", fn.Name(), x.Prog.Pos(ins.Cond.Pos()), x.C.Show(cond))
 				}
